@@ -1,0 +1,158 @@
+//! Script drivers for scheduler-private components (feature `verif-hooks` only).
+
+use super::{
+    context::SchedulerContext,
+    cursor::PublishedCursor,
+    ordered_commit::{CommitOutcome, OrderedCommitOutput, OrderedCommitter},
+};
+use crate::{
+    GrevmError, ParallelState, TxExecutionOutcome,
+    beneficiary::{DeferredBeneficiaryReward, SpeculativeResult},
+    tx_dependency::TxDependency,
+};
+use revm::DatabaseRef;
+use revm_context::{TxEnv, result::ResultAndState};
+use revm_primitives::{Address, U256};
+
+/// The scheduling cursors, logical clock and timestamps.
+pub struct ContextDriver(SchedulerContext);
+
+impl ContextDriver {
+    pub fn new(num_txs: usize) -> Self {
+        Self(SchedulerContext::new(num_txs))
+    }
+    pub fn rewind_validation_to(&self, index: usize) {
+        self.0.rewind_validation_to(index)
+    }
+    pub fn logical_timestamp(&self) -> usize {
+        self.0.logical_timestamp()
+    }
+    pub fn executed(&self, index: usize) {
+        self.0.executed(index)
+    }
+    pub fn unconfirmed(&self, index: usize, timestamp: usize) {
+        self.0.unconfirmed(index, timestamp)
+    }
+    pub fn finished(&self) -> bool {
+        self.0.finished()
+    }
+    pub fn finality_idx(&self) -> usize {
+        self.0.finality_idx()
+    }
+    pub fn publish_finality(&self, index: usize) {
+        self.0.publish_finality(index)
+    }
+    pub fn committed_idx(&self) -> usize {
+        self.0.committed_idx()
+    }
+    pub fn publish_commit(&self, index: usize) {
+        self.0.publish_commit(index)
+    }
+    pub fn validation_idx(&self) -> usize {
+        self.0.validation_idx()
+    }
+    pub fn validation_reset_count(&self) -> usize {
+        self.0.validation_reset_count()
+    }
+    pub fn lower_timestamp(&self, index: usize) -> usize {
+        self.0.lower_timestamp(index)
+    }
+    pub fn unconfirmed_timestamp(&self, index: usize) -> usize {
+        self.0.unconfirmed_timestamp(index)
+    }
+    pub fn execution_frontier(&self) -> usize {
+        self.0.execution_frontier()
+    }
+    pub fn should_schedule(&self, executing_idx: usize) -> bool {
+        self.0.should_schedule(executing_idx)
+    }
+    pub fn next_validation_idx(&self, executing_idx: usize) -> Option<usize> {
+        self.0.next_validation_idx(executing_idx)
+    }
+}
+
+/// The dependency graph together with the committed cursor its `key_tx` consults.
+pub struct DependencyDriver {
+    dependency: TxDependency,
+    committed: PublishedCursor,
+}
+
+impl DependencyDriver {
+    pub fn new(num_txs: usize) -> Self {
+        Self { dependency: TxDependency::new(num_txs), committed: PublishedCursor::new(0) }
+    }
+    pub fn next(&self) -> Option<usize> {
+        self.dependency.next()
+    }
+    pub fn index(&self) -> usize {
+        self.dependency.index()
+    }
+    pub fn remove(&self, txid: usize, pop_next: bool) -> Option<usize> {
+        self.dependency.remove(txid, pop_next)
+    }
+    /// `publish_commit(txid + 1)` followed by `commit(txid)`, as the commit loop does.
+    pub fn publish_and_commit(&self, txid: usize) {
+        self.committed.publish(txid + 1);
+        self.dependency.commit(txid);
+    }
+    pub fn publish_commit_only(&self, value: usize) {
+        self.committed.publish(value);
+    }
+    pub fn commit_only(&self, txid: usize) {
+        self.dependency.commit(txid);
+    }
+    pub fn key_tx(&self, txid: usize) {
+        self.dependency.key_tx(txid, self.committed.reader());
+    }
+    pub fn add(&self, txid: usize, dep: Option<usize>) {
+        self.dependency.add(txid, dep);
+    }
+    pub fn committed(&self) -> usize {
+        self.committed.get()
+    }
+    #[allow(clippy::type_complexity)]
+    pub fn snapshot(&self) -> (Vec<(bool, Option<usize>)>, Vec<Vec<usize>>, usize) {
+        self.dependency.verif_snapshot()
+    }
+}
+
+/// Outcome of one ordered-commit attempt.
+#[derive(Debug)]
+pub enum CommitProbe<E> {
+    /// Committed; the new exclusive prefix end and the pushed outcome.
+    Committed(usize, TxExecutionOutcome),
+    /// Left uncommitted for sequential revalidation.
+    Fallback,
+    /// Database error.
+    Error(GrevmError<E>),
+}
+
+/// Run `OrderedCommitter::commit` once on `state` (which keeps the effect).
+pub fn commit_once<DB: DatabaseRef>(
+    state: &mut ParallelState<DB>,
+    beneficiary: Address,
+    disable_nonce_check: bool,
+    txid: usize,
+    tx_env: &TxEnv,
+    result_and_state: ResultAndState,
+    deferred_reward: Option<U256>,
+) -> CommitProbe<DB::Error> {
+    let (_view, commit_state) = state.split_for_parallel();
+    let mut committer = OrderedCommitter::new(beneficiary, commit_state, disable_nonce_check);
+    let speculative = match deferred_reward {
+        Some(amount) => SpeculativeResult::deferred(
+            result_and_state,
+            DeferredBeneficiaryReward::verif_new(amount),
+        ),
+        None => SpeculativeResult::settled(result_and_state),
+    };
+    let mut output = OrderedCommitOutput::with_capacity(1);
+    match committer.commit(txid, tx_env, speculative, &mut output) {
+        Ok(CommitOutcome::Committed(end)) => {
+            let outcome = output.into_outcomes().pop().expect("committed outcome");
+            CommitProbe::Committed(end.index(), outcome)
+        }
+        Ok(CommitOutcome::NeedsSequentialFallback) => CommitProbe::Fallback,
+        Err(error) => CommitProbe::Error(error),
+    }
+}
